@@ -1212,9 +1212,11 @@ def setitem(a, idx, v):
                 raise value_error(f'could not broadcast input array from shape {v.shape} into shape {tuple(ss)}')
         vdt = v.dt
     elif isinstance(v, (list, tuple)):
-        vdt = 'complex' if any(isinstance(x, complex) for x in v) else 'real'
+        vdt = 'complex' if any(isinstance(x, complex) for x in v) else ('real' if any(isinstance(x, float) or (isinstance(x, Arr) and x.dt == 'real') for x in v) else 'int')
     else:
-        vdt = 'complex' if isinstance(v, complex) else 'real'
+        vdt = 'complex' if isinstance(v, complex) else ('real' if isinstance(v, float) else 'int')
+    if vdt in ('real', 'complex') and a.dt in ('int', 'bool'):
+        CTX.event('float-loss', target=a, value=v, detail=f'a floating-point value is stored into an integer array (it is truncated towards zero): the array was allocated with an integer dtype')
     if vdt == 'complex' and a.dt != 'complex':
         CTX.event('complex-loss', target=a, value=v, detail=f'a possibly complex value is stored into a {a.dt} array (the imaginary part is discarded)')
     adopt_legs(a, idx, sel, v)
